@@ -6,7 +6,10 @@ Two kinds of cases (field "t"):
         SQL driver; observed: returned error, driver call log, escaped panic.
   orm : destination shape (primitive / struct with db tags, pointer fields, embedded structs /
         slices of them, materialised with reflect.StructOf) x result set (sqlmock.NewRows), run
-        through QueryRow(s)[Partial]; observed: error class / panic, canonical destination dump.
+        through QueryRow(s)[Partial] (plain or Ctx form) on each entry point family ("via"): conn,
+        statement prepared on conn, transaction session, statement prepared on the transaction
+        session; observed: error class / panic, canonical destination dump, and for the two
+        transaction families Transact's result and the begin/commit/rollback log.
 """
 import itertools
 import re
@@ -23,7 +26,17 @@ GEN_SPEC = {"imports": ["From God Require Import C11.GenEnv."], "items": [
      "calls": {"db.accept": "ext_accept"}},
     {"kind": "const", "file": "lib/store/sqlx/orm.go", "name": "tagName"},
 ]}
-QUICK_N = 300          # orm cases; the 504 exhaustive tx cases are always added
+# (method -> strict literal handed to unmarshalRow(s)) for every receiver, and plain form -> Ctx form
+RECVS = [("conn", "commonConn", "lib/store/sqlx/conn.go"), ("stmt", "statement", "lib/store/sqlx/conn.go"),
+         ("tx", "txSession", "lib/store/sqlx/tx.go")]
+for _short, _typ, _file in RECVS:
+    for _m in ("QueryRow", "QueryRowPartial", "QueryRows", "QueryRowsPartial"):
+        GEN_SPEC["items"].append({"kind": "chain", "file": _file, "func": "%s.%sCtx" % (_typ, _m),
+                                  "call": "unmarshalRows" if "Rows" in _m else "unmarshalRow",
+                                  "as": "flag_%s_%s" % (_short, _m)})
+        GEN_SPEC["items"].append({"kind": "calls", "file": _file, "func": "%s.%s" % (_typ, _m),
+                                  "as": "plain_%s_%s" % (_short, _m)})
+QUICK_N = 300          # orm base cases (each run through the 4 entry point families); + 504 exhaustive tx cases
 THOROUGH_N = 5000
 SHARD = 400
 DRIVER_TIMEOUT = 600
@@ -34,7 +47,9 @@ RULE = ("tx: all 8 begin/commit/rollback fault combinations x all bodies of 0-2 
         "structs to depth 2, all-tagged / untagged / mixed, tag options, rare duplicate tags; primitives; slices of "
         "values or pointers; unsupported destinations) x result sets (columns = permuted subset of the tags plus "
         "extras, or arity nf-2..nf+1 for untagged; 0-3 rows; cells typed for the intended field with 15% noise incl. "
-        "NULL) x strict/partial x row/rows, plus permutation families of the same (shape, rows); "
+        "NULL) x strict/partial x row/rows, plus permutation families of the same (shape, rows); every orm case is run "
+        "(together with a fixed arity/order boundary stream of 24 cases x 4 entry points x plain/Ctx) "
+        "through all 4 entry point families (conn, stmt on conn, tx session, stmt on tx session), plain or Ctx form at random; "
         "non-trivial = tx case that began, or orm case with at least one row reaching a struct/primitive destination; "
         "distinct = distinct canonical case JSON")
 TRUSTED = ["database/sql Rows.Scan / convertAssign for int64, string, sql.NullInt64 and struct destinations "
@@ -234,17 +249,38 @@ def generate(rng, tier, n):
         cases += gen_family(rng, 4 if tier != "thorough" else 120)
     while len([c for c in cases if c["t"] == "orm"]) < n:
         cases.append(gen_orm(rng))
-    return cases
+    out = via_all(rng, cases)
+    if tier != "search":
+        for c in boundary_orm():                       # boundary stream: every entry point, plain AND Ctx form
+            for via in VIAS:
+                for ctx in (False, True):
+                    d = dict(c)
+                    d["via"], d["ctx"] = via, ctx
+                    out.append(d)
+    return out
 
 
-def search(rng, problems):
-    """directed cases: every fault combination with a panicking / failing / clean body; exact-arity shapes"""
+VIAS = ("conn", "stmt", "tx", "txstmt")
+
+
+def via_all(rng, cases):
+    """every orm case goes through each entry point family; plain or Ctx form at random"""
     out = []
-    for b, c, r in itertools.product([False, True], repeat=3):
-        for fin in FINALS:
-            out.append({"t": "tx", "begin": b, "commit": c, "rollback": r, "stmts": [], "final": dict(fin), "api": "transact"})
-            out.append({"t": "tx", "begin": b, "commit": c, "rollback": r, "stmts": [dict(STMT_KINDS[0])], "final": dict(fin),
-                        "api": "transactctx"})
+    for c in cases:
+        if c["t"] != "orm":
+            out.append(c)
+            continue
+        for via in VIAS:
+            d = dict(c)
+            d["via"] = via
+            d["ctx"] = rng.random() < 0.5
+            out.append(d)
+    return out
+
+
+def boundary_orm():
+    """arity / order boundary: tagged and untagged 2-field structs with exact, swapped, short and empty results"""
+    out = []
     two = [{"tag": "a", "ptr": False, "k": "int"}, {"tag": "b", "ptr": False, "k": "int"}]
     two_u = [{"tag": "", "ptr": False, "k": "int"}, {"tag": "", "ptr": False, "k": "int"}]
     for strict in (False, True):
@@ -258,6 +294,18 @@ def search(rng, problems):
             out.append({"t": "orm", "mode": mode, "strict": strict, "shape": shu, "cols": ["x", "y"], "rows": [[1, 2]]})
             out.append({"t": "orm", "mode": mode, "strict": strict, "shape": shu, "cols": ["x"], "rows": [[5]]})
     return out
+
+
+def search(rng, problems):
+    """directed cases: every fault combination with a panicking / failing / clean body; exact-arity shapes"""
+    out = []
+    for b, c, r in itertools.product([False, True], repeat=3):
+        for fin in FINALS:
+            out.append({"t": "tx", "begin": b, "commit": c, "rollback": r, "stmts": [], "final": dict(fin), "api": "transact"})
+            out.append({"t": "tx", "begin": b, "commit": c, "rollback": r, "stmts": [dict(STMT_KINDS[0])], "final": dict(fin),
+                        "api": "transactctx"})
+    out += boundary_orm()
+    return via_all(rng, out)
 
 
 # ------------------------------------------------------------------------------------------ encode
@@ -383,13 +431,37 @@ def status_term(o):
     return "(Err %d%%nat)" % code
 
 
+METH = {("row", True): "MQueryRow", ("row", False): "MQueryRowPartial",
+        ("rows", True): "MQueryRows", ("rows", False): "MQueryRowsPartial"}
+VIA = {"conn": "VConn", "stmt": "VStmt", "tx": "VTx", "txstmt": "VTxStmt"}
+
+
+def tx_obs_term(o):
+    """Transact's result around a query body: nil, the query's own error (same object), or the recover branch's error"""
+    t = o.get("tx")
+    if t is None:
+        return "None"
+    e = t.get("err")
+    if e is None:
+        r = "None"
+    elif t.get("same"):
+        st = status_term(o)
+        m = re.match(r"^\(Err (\d+)%nat\)$", st)
+        r = "(Some (EBody %s%%nat))" % m.group(1) if m else "(Some EOther)"
+    elif re.match(r"^事务发生恐慌：", e.get("msg", "")) and not e.get("unwrap") and "回滚也失败了" not in e.get("msg", ""):
+        r = "(Some (EPanic 0%nat))"
+    else:
+        r = "(Some EOther)"
+    return "(Some (%s, %s, %s))" % (r, clist([call_term(x) for x in t.get("calls", [])]), cbool(t.get("escaped", False)))
+
+
 def encode_orm(c, o):
     sh = c["shape"]
     sh_t = ("(DSlice %s %s)" % (cbool(sh["ptr"]), elem_term(sh["e"]))) if sh["d"] == "slice" else "(DElem %s)" % elem_term(sh["e"])
     rows = clist([clist([cell_term(x) for x in r]) for r in c["rows"]])
     dest = clist([clist([leaf_term(x) for x in el]) for el in o.get("dest", [])])
-    return "COrm %s %s %s %s %s %s %s" % (cbool(c["mode"] == "rows"), cbool(c["strict"]), sh_t,
-                                          clist([cstr(x) for x in c["cols"]]), rows, status_term(o), dest)
+    return "COrm %s %s %s %s %s %s %s %s" % (VIA[c.get("via", "conn")], METH[(c["mode"], bool(c["strict"]))], sh_t,
+                                             clist([cstr(x) for x in c["cols"]]), rows, status_term(o), dest, tx_obs_term(o))
 
 
 def encode(case, obs):
@@ -415,7 +487,12 @@ def bucket(case, obs):
         out.append("tx:result=" + ("nil" if obs.get("err") is None else "error"))
         return out
     e = case["shape"]["e"]
-    out = ["orm", "orm:" + case["mode"], "orm:strict" if case["strict"] else "orm:partial", "orm:rows=%d" % len(case["rows"])]
+    out = ["orm", "orm:" + case["mode"], "orm:strict" if case["strict"] else "orm:partial", "orm:rows=%d" % len(case["rows"]),
+           "orm:via=" + case.get("via", "conn"), "orm:ctxform" if case.get("ctx") else "orm:plainform"]
+    if obs.get("tx") is not None:
+        calls = obs["tx"].get("calls", [])
+        out.append("orm:tx-terminal=" + ("commit" if any(x.startswith("commit") for x in calls) else
+                                          "rollback" if any(x.startswith("rollback") for x in calls) else "none"))
     if e.get("fs") is not None:
         fs = e["fs"]
         tags = [tag_name(f) for f in fs]
@@ -442,7 +519,8 @@ def explain(case, obs):
                 "returned error / the Begin-Exec-Commit-Rollback log is not the one the outcome table allows "
                 "(nil result <=> exactly one successful Commit; otherwise exactly one Rollback and a non-nil result)")
     return ("observed query result contradicts C11.Exec.spec_orm: destination not filled by column name / by position, "
-            "missing ErrNotFound on an empty result, or strict mode accepted fewer columns than fields")
+            "missing ErrNotFound on an empty result, strict form accepted fewer columns than fields / partial form rejected them, "
+            "on entry point '%s'; or a query failing inside Transact did not lead to exactly one Rollback" % case.get("via", "conn"))
 
 
 def shrink(v):
